@@ -191,6 +191,25 @@ Theorem failed_then_more : forall pf js fs cur st o io h,
 Proof. exact failed_then_more_lemma. Qed.
 Print Assumptions failed_then_more.
 
+(* a request that cannot READ the settings file (EACCES, EPERM, EIO ... on open/read) reports an
+   error and leaves the file alone: only a file that does not exist counts as "no configurations yet" *)
+Theorem read_fault_is_reported : forall pf js fs cur st o,
+  fst (run_sop_f pf js fs cur st o ReadFault) <> 0 /\ snd (run_sop_f pf js fs cur st o ReadFault) = st.
+Proof. exact read_fault_is_reported_lemma. Qed.
+Print Assumptions read_fault_is_reported.
+
+Theorem faulted_op_keeps_file : forall pf js fs cur st o f code st',
+  run_sop_f pf js fs cur st o f = (code, st') -> code <> 0 -> st' = st.
+Proof. exact failed_op_f_keeps_file. Qed.
+Print Assumptions faulted_op_keeps_file.
+
+(* histories of one process with failing writes and failing reads anywhere: the file at the end is
+   what the successful requests alone produce *)
+Theorem faults_leave_no_trace : forall pf js fs cur h st,
+  run_hist_f pf js fs cur st h = run_hist_f pf js fs cur st (successes_f pf js fs cur st h).
+Proof. exact faults_leave_no_trace_lemma. Qed.
+Print Assumptions faults_leave_no_trace.
+
 (* ---------- crash atomicity ---------- *)
 (* for every op list in the protocol class (the recogniser is evaluated on the system calls the
    implementation REALLY issues, recovered by strace on every run): killed between any two
